@@ -1819,6 +1819,9 @@ func (tc *typechecker) checkExplicitConversion(expr *ast.Call) *typeInfo {
 
 	// Check the special conversion from markdown to html.
 	if t.IsFormatType() && tc.isMarkdown(arg.Type) && tc.isHTML(t.Type) {
+		if tc.mdConverter == nil {
+			panic(tc.errorf(expr, "cannot convert %s to %s: no Markdown converter available", expr.Args[0], t))
+		}
 		ti := &typeInfo{Type: t.Type}
 		if arg.IsConstant() {
 			var b bytes.Buffer
